@@ -1,0 +1,47 @@
+//go:build verif
+
+/*
+ * Licensed to the Apache Software Foundation (ASF) under one or more
+ * contributor license agreements.  See the NOTICE file distributed with
+ * this work for additional information regarding copyright ownership.
+ * The ASF licenses this file to You under the Apache License, Version 2.0
+ * (the "License"); you may not use this file except in compliance with
+ * the License.  You may obtain a copy of the License at
+ *
+ *     http://www.apache.org/licenses/LICENSE-2.0
+ *
+ * Unless required by applicable law or agreed to in writing, software
+ * distributed under the License is distributed on an "AS IS" BASIS,
+ * WITHOUT WARRANTIES OR CONDITIONS OF ANY KIND, either express or implied.
+ * See the License for the specific language governing permissions and
+ * limitations under the License.
+ */
+
+package gin
+
+// Verification contracts for property C07 (comment-only, tag verif): the xid carried by the HTTP header
+// arrives unchanged in the seata context of the request the handlers see (which is never a Launcher);
+// a request without the header is refused and gets no seata context. gin.Context and net/http are
+// the environment (assumed: a header value is a function of the context and the key; a request made
+// by WithContext carries that context).
+//@ ext (*github.com/gin-gonic/gin.Context).GetHeader
+//@   ensures true
+//@ ext (*github.com/gin-gonic/gin.Context).AbortWithStatus
+//@   ensures true
+//@ ext (*net/http.Request).Context
+//@   ensures result != nil
+//@ ext (*net/http.Request).WithContext
+//@   ensures result != nil
+
+//@ func TransactionMiddleware$1
+//@   prop C07
+//@   requires ctx != nil && ctx.Request != nil
+//@   modifies ctx.Request
+//@   plet h1 := callres("GetHeader#1", 0)
+//@   plet h2 := ite(h1 == "" && called("GetHeader#2"), callres("GetHeader#2", 0), "")
+//@   plet xid := ite(h1 != "", h1, h2)
+//@   ensures spellings: callarg("GetHeader#1", 1) == constant.XidKey && (h1 == "" ==> called("GetHeader#2") && callarg("GetHeader#2", 1) == constant.XidKeyLowercase)
+//@   ensures refused-without-xid: xid == "" ==> called("AbortWithStatus#1") && !called("WithContext#1") && ctx.Request == old(ctx.Request)
+//@   ensures handed-on-with-the-xid: xid != "" ==> called("WithContext#1") && !called("AbortWithStatus#1") && ctx.Request == callres("WithContext#1", 0)
+//@   at call WithContext#1: assert xid-arrives-unchanged: isT(ctxvalue(arg_ctx, tm.seataContextVariable), *tm.ContextVariable) && ctxvalue(arg_ctx, tm.seataContextVariable).(*tm.ContextVariable) != nil && ctxvalue(arg_ctx, tm.seataContextVariable).(*tm.ContextVariable).Xid != "" && (ctxvalue(arg_ctx, tm.seataContextVariable).(*tm.ContextVariable).Xid == callres("GetHeader#1", 0) || (callres("GetHeader#1", 0) == "" && ctxvalue(arg_ctx, tm.seataContextVariable).(*tm.ContextVariable).Xid == callres("GetHeader#2", 0))) && ctxvalue(arg_ctx, tm.seataContextVariable).(*tm.ContextVariable).TxRole != tm.Launcher
+//@   may_panic
